@@ -23,6 +23,7 @@ def operand_pool(b):
     pool.append(lambda: b.add(ty="nan"))
     pool.append(lambda: b.add(ty="inf", s=1)); pool.append(lambda: b.add(ty="inf", s=-1))
     for s in ("", "a", "b", "10", "9", " 7 ", "x1", "é"): pool.append(lambda s=s: b.add(ty="str", cs=cs(s)))
+    pool.append(lambda: b.add(ty="str", cs=[0xD83D, 0xDE00]))      # an astral character: printed as the escape pair \ud83d\ude00
     pool.append(lambda: b.add(ty="bool", v=1)); pool.append(lambda: b.add(ty="bool", v=0))
     pool.append(lambda: b.add(ty="null")); pool.append(lambda: b.add(ty="undef"))
     pool.append(lambda: b.add(ty="arrlit", xs=[]))
